@@ -48,7 +48,9 @@ func c02Attrs(r *Rng) [][2]string {
 	for i, k := 0, r.Intn(3); i < k; i++ {
 		// plain names, and names with a colon, a period or an underscore inside (namespaces, htmx / alpine style
 		// attributes): none of them is a directive or a binding
-		n := Pick(r, []string{"class", "id", "title", "data-x", "lang", "class", "id", "title", "xml:lang", "xmlns:og", "hx-on:click", "aria-label", "data-a.b_c", "x-on:keyup.enter"})
+		n := Pick(r, []string{"class", "id", "title", "data-x", "lang", "class", "id", "title", "xml:lang", "xmlns:og", "hx-on:click", "aria-label", "data-a.b_c", "x-on:keyup.enter",
+			// names that merely resemble the engine's own vocabulary (scoped-style hashes, data attributes) are ordinary attributes
+			"data-v-7ba5bd90", "data-v-note", "data-v", "data-vue", "data-html", "data-text", "data-if", "data-for", "data-slot", "is", "key", "ref", "slot-scope", "include-x", "required"})
 		if used[n] {
 			continue
 		}
